@@ -1,1 +1,11 @@
-//! Slice model (filled in later).
+//! The shared reference model of the Slice language ("slice model").
+
+pub mod ast;
+pub mod doc;
+pub mod families;
+pub mod gen;
+pub mod observe;
+pub mod print;
+pub mod resolve;
+pub mod run;
+pub mod tree;
